@@ -37,6 +37,8 @@ def vjson_to_py(v):
         return bytes(v["b"]).decode("latin-1")
     if t == "real":
         return v["n"] / v["d"]
+    if t == "inf":
+        return "inf" if v["s"] > 0 else "-inf"
     raise ValueError("bad vjson " + repr(v))
 
 
@@ -673,4 +675,91 @@ def judge_forth(case, res):
                 return "%s: output %s, expected %s" % (name, st["outs"].get("y"), exp["out"])
             if st["inpos"].get("data") != exp["pos"]:
                 return "%s: input position %s, expected %s" % (name, st["inpos"].get("data"), exp["pos"])
+    return None
+
+
+# ------------------------------------------------------------------ JSON texts (JsonIO.tla)
+def json_text(toks, pick):
+    parts = []
+    for t in toks:
+        k = t["t"]
+        if k in "[]{},:":
+            parts.append(k)
+        elif k == "null":
+            parts.append("null")
+        elif k == "true":
+            parts.append("true")
+        elif k == "int":
+            parts.append(str(t["x"]))
+        elif k == "real":
+            parts.append(repr(t["n"] / t["d"]))
+        elif k == "str":
+            parts.append(json.dumps(bytes(t["b"]).decode("latin-1")))
+        else:
+            parts.append(t.get("text", "tru"))
+    sep = pick([" ", " ", "\n", "\t ", ""])
+    if sep == "":
+        out = ""
+        for a, b in zip(parts, parts[1:] + [""]):
+            out += a
+            # no separator only where the two tokens cannot fuse lexically
+            if b and not (a[-1] in "[]{},:" or b[0] in "[]{},:"):
+                out += " "
+        return out
+    lead = pick(["", " ", "\n"])
+    return lead + sep.join(parts) + pick(["", " ", "\n"])
+
+
+def steps_json(case, pick):
+    text = json_text(case["toks"], pick)
+    mode = pick([0, 0, 1])
+    st = {"op": "json_parse", "text": text, "initial": pick([1, 2, 1024]), "dst": "r", "want": ["json", "type", "valid"]}
+    if mode == 1:
+        st["file"] = 1
+        st["buffersize"] = pick([1, 2, 3, 7, 64, 65536])
+    return [st, {"op": "json_write", "src": "r", "pretty": pick([0, 1]), "file": pick([0, 1]), "buffersize": pick([1, 5, 65536])}]
+
+
+def judge_json(case, res):
+    if not res:
+        return "no result"
+    r = res[0]
+    exp = case["exp"]
+    if r.get("ok") == -1:
+        return "harness: " + r.get("harness", "")
+    if exp["ok"] == 3:
+        return None
+    if exp["ok"] == 0:
+        if r.get("ok") == 1:
+            return "malformed/truncated JSON accepted, result %s" % r.get("json")
+        if r.get("exc") not in ("ValueError", "RuntimeError"):
+            return "not an ordinary exception: %s" % r.get("exc")
+        return None
+    if r.get("ok") != 1:
+        return "valid JSON (%d documents) refused: %s" % (exp["n"], r.get("msg"))
+    try:
+        got = json.loads(r["json"])
+    except Exception as e:
+        return "tojson of the parsed array is not parseable: %s" % e
+    if not builder_values_equal(got, vjson_to_py(exp["v"])):
+        return "from_json value %s differs from from_iter(json.loads(text))" % r["json"]
+    if not r.get("scalar") and r.get("valid", "") != "" and exp["v"].get("t") != "str":
+        return "parsed array fails validity: %r" % r.get("valid")      # (a bare string document is returned as its characters)
+    # to_json(from_json(text)) must be well-formed JSON with the same value (output half, round trip)
+    if len(res) > 1:
+        w = res[1]
+        if w.get("ok") != 1:
+            return "to_json of the parsed array raised: %s" % (w.get("msg") or w.get("harness"))
+        try:
+            back = json.loads(w["text"])
+        except Exception as e:
+            return "to_json output is not well-formed JSON: %s" % e
+        def unmark(x):      # the writer was given its own marker strings for the non-finite numbers
+            if isinstance(x, list):
+                return [unmark(y) for y in x]
+            if isinstance(x, dict):
+                return {k: unmark(y) for k, y in x.items()}
+            return {"NaN!": "nan", "Inf!": "inf", "-Inf!": "-inf"}.get(x, x) if isinstance(x, str) else x
+        if not values_equal(unmark(back), got):
+            return "to_json output %s does not parse back to the array's value" % w["text"][:200]
     return None
